@@ -2,7 +2,9 @@
 
 Spec: spec/TraceSetPoly.tla (over spec/Rat.tla); MC: mc/MC_TraceSetPoly; Trace: trace/Trace_TraceSetPoly.
 
-spec -> code: every state of MC_TraceSetPoly is a basis evaluation, a fitting problem or a trace-set problem with
+spec -> code: every state of MC_TraceSetPoly is a basis evaluation, a fitting problem, a trace-set problem or the
+default grid of a trace set over a real-valued x-range (family "tgrid": xmin and xmax - xmin over every quarter
+fraction; limits from a table, supplied as keywords, or derived from real-valued positions) with
 the outcome the specification demands (exact rationals); each is replayed into flegendre / fchebyshev / fpoly /
 fchebyshev_split / func_fit / TraceSet / xy2traceset / traceset2xy under every applicable calling convention.
 code -> spec: seeded random real calls are recorded and judged by Trace_TraceSetPoly (exact records: the spec
@@ -595,6 +597,120 @@ def check_tset(ctx, c, exp, only=None, layouts=None):
                 odd_layouts(lays) or 'plain', what),
                 'part': 'tset', 'conv': conv, 'layouts': dict(lays), 'call': jsonable(c), 'expected': jsonable(exp)},
                 finding=tset_finding(c, lays, what))
+    return n
+
+
+# ----------------------------------------------------------------------------------------------
+# spec -> code: default grids over real-valued x-ranges (family "tgrid")
+# ----------------------------------------------------------------------------------------------
+def tgrid_conventions(c, exp):
+    """'fits': the trace set comes from a table; 'keywords': fitted to the grid with xmin / xmax supplied; 'derived':
+    fitted to real-valued positions whose extremes are the limits (no xmin / xmax keywords).  The two fitted ones only
+    where the specification says the coefficients can be demanded back (exp.fitk / exp.fitd)."""
+    return ['fits'] + (['keywords'] if exp['fitk'] else []) + (['derived'] if exp['fitd'] else [])
+
+
+def build_tgrid(c, exp, conv, lays):
+    from pydl.pydlutils.trace import TraceSet, xy2traceset
+    j = c['jump']
+    nt = len(c['coeff'])
+    if conv == 'fits':
+        jump = (fl(j['lo']), fl(j['hi']), fl(j['val'])) if j['on'] else None
+        return TraceSet(fits_rec(c['basis'], fl(c['xmin']), fl(c['xmax']), mat(c['coeff']), jump))
+    kw = {'func': c['basis'], 'ncoeff': int(c['nc'])}
+    if j['on']:
+        kw['xjumplo'], kw['xjumphi'], kw['xjumpval'] = fl(j['lo']), fl(j['hi']), fl(j['val'])
+    if conv == 'keywords':
+        xpos, ypos = mat([exp['grid']] * nt), mat(exp['ygrid'])
+        kw['xmin'], kw['xmax'] = fl(c['xmin']), fl(c['xmax'])
+    else:
+        xpos, ypos = mat(c['dpos']), mat(exp['dy'])
+    xpos, ypos = lays.give('xpos', xpos, ints=False), lays.give('ypos', ypos, ints=False)
+    # through the function or the class (seeded rotation; a replay file says which)
+    lays['maker'] = lays.forced.get('maker') or _ROT[0].choice(['xy2traceset', 'TraceSet'])
+    return {'xy2traceset': xy2traceset, 'TraceSet': TraceSet}[lays['maker']](xpos, ypos, **kw)
+
+
+def judge_grid_of(t, c, exp, ign):
+    """The default grid of trace set t through .xy() and traceset2xy(), with / without ignore_jump."""
+    from pydl.pydlutils.trace import traceset2xy
+    nt = len(c['coeff'])
+    grid = [fq(v) for v in exp['grid']]
+    nx = int(exp['nx'])
+    want = exp['ygridign'] if ign else exp['ygrid']
+    for name, fn in (('xy()', lambda: t.xy(ignore_jump=ign)), ('traceset2xy()', lambda: traceset2xy(t, ignore_jump=ign))):
+        name += ' ignore_jump' if ign else ''
+        out = fn()
+        if not (isinstance(out, tuple) and len(out) == 2):
+            return '%s did not return (x, y)' % name
+        xg, yg = np.asarray(out[0]), np.asarray(out[1])
+        if xg.shape != (nt, nx):
+            return 'default grid shape %r expected (nTrace, nx) = %r: %s' % (
+                xg.shape, (nt, nx), grid_words(xg, c))
+        for k in range(nt):
+            for i, g in enumerate(grid):
+                if F(float(xg[k, i])) != g:
+                    return 'default grid[%d,%d] = %r expected %s' % (k, i, xg[k, i], g)
+        w = near_matrix(yg, want, name + ' on the default grid')
+        if w:
+            return w
+    return None
+
+
+def grid_words(xg, c):
+    """A wrong-shaped grid in words (for the report only)."""
+    try:
+        last = float(xg[0, -1])
+        return 'last point %r, xmin=%s xmax=%s%s' % (last, fq(c['xmin']), fq(c['xmax']),
+                                                     ' (beyond xmax)' if F(last) > fq(c['xmax']) else '')
+    except Exception:
+        return 'xmin=%s xmax=%s' % (fq(c['xmin']), fq(c['xmax']))
+
+
+def judge_tgrid(c, exp, conv, t):
+    nt = len(c['coeff'])
+    if F(float(t.xmin)) != fq(c['xmin']) or F(float(t.xmax)) != fq(c['xmax']):
+        return 'xmin/xmax %r %r expected %s %s' % (t.xmin, t.xmax, fq(c['xmin']), fq(c['xmax']))
+    if t.nTrace != nt or t.ncoeff != c['nc'] or t.func != c['basis']:
+        return 'nTrace/ncoeff/func %r %r %r' % (t.nTrace, t.ncoeff, t.func)
+    if conv != 'fits':
+        # the values were an exact combination of the basis: the coefficients are recovered, yfit = the values
+        w = near_matrix(t.coeff, c['coeff'], 'coeff') or \
+            near_matrix(t.yfit, exp['ygrid'] if conv == 'keywords' else exp['dy'], 'yfit')
+        if w:
+            return w
+    if not isinstance(t.nx, (int, np.integer)) or int(t.nx) != int(exp['nx']):
+        return 'nx %r expected %d (xmin=%s xmax=%s)' % (t.nx, exp['nx'], fq(c['xmin']), fq(c['xmax']))
+    return judge_grid_of(t, c, exp, False) or judge_grid_of(t, c, exp, True)
+
+
+def check_tgrid(ctx, c, exp, only=None, layouts=None):
+    n = 0
+    for conv in tgrid_conventions(c, exp):
+        if only and conv != only:
+            continue
+        ctx.evaluated(1, 'tgrid-' + conv)
+        n += 1
+        lays = Layouts(layouts)
+        try:
+            t = build_tgrid(c, exp, conv, lays)
+            what = judge_tgrid(c, exp, conv, t)
+        except core.MachineryError:
+            raise
+        except Exception as ex:
+            what = 'raised %s: %s' % (type(ex).__name__, str(ex)[:160])
+        if what:
+            j = c['jump']
+            whole = (fq(c['xmax']) - fq(c['xmin'])).denominator == 1
+            report(ctx, ('tgrid', c['basis'], conv, bool(j['on']), whole,
+                         ''.join(ch for ch in what.split(':')[0].split('[')[0] if not ch.isdigit()),
+                         layout_signature(lays, what)), {
+                'what': 'trace set %s nc=%d nTrace=%d xmin=%s xmax=%s (x-range %s a whole number of pixels) jump=%s '
+                        '[default grid, %s, layouts %s]: %s' % (
+                            c['basis'], c['nc'], len(c['coeff']), fq(c['xmin']), fq(c['xmax']), 'is' if whole else 'is not',
+                            (str(fq(j['lo'])), str(fq(j['hi'])), str(fq(j['val']))) if j['on'] else None, conv,
+                            odd_layouts(lays) or 'plain', what),
+                'part': 'tgrid', 'conv': conv, 'layouts': dict(lays), 'call': jsonable(c), 'expected': jsonable(exp)})
     return n
 
 
@@ -1450,7 +1566,7 @@ def selftest(ctx, recs, wire, bad):
 def run(ctx):
     ctx.level = 'model_checking'
     ctx.rule = ('every non-seed state of MC_TraceSetPoly is one case (basis evaluation (basis, m, x) / fitting problem / '
-                'trace-set problem) with its exact rational outcome, replayed under every applicable calling convention; '
+                'trace-set problem / default grid of a trace set over a real-valued x-range) with its exact rational outcome, replayed under every applicable calling convention; '
                 'non-trivial = distinct case with m >= 3 (bases) or with a non-zero generating coefficient beyond the '
                 'constant (fits, trace sets); recorded calls = seeded random real calls judged by Trace_TraceSetPoly '
                 '(exact records + M3 law instances whose discrepancy is measured by the harness, level exploration)')
@@ -1487,6 +1603,7 @@ def run(ctx):
     r = box['r']
     groups = {}
     nstate = 0
+    ngrid = [0, 0]
     cpu0 = time.process_time()
     for st in core.iter_states(r):
         c, exp = st['c'], st['exp']
@@ -1526,6 +1643,20 @@ def run(ctx):
             if any(v != (0, 1) for row in c['gen'] for v in row[1:]):
                 ctx.nontriv(('tset', c['basis'], c['nc'], c['xpos'], c['ypos'], c['w'], c['gmin'], c['gmax'], c['xmin'], c['xmax'],
                              tuple(sorted(c['jump'].items()))))
+        elif kind == 'tgrid':
+            check_tgrid(ctx, c, exp)
+            ctx.validated()
+            nstate += 1
+            ngrid[(fq(c['xmax']) - fq(c['xmin'])).denominator != 1] += 1
+            if 'tgrid' not in box and exp['nx'] > 2 and (fq(c['xmax']) - fq(c['xmin'])).denominator != 1:
+                box['tgrid'] = True
+                ctx.sample({'tgrid_case': jsonable(c), 'expected': jsonable(exp)})
+            ctx.nontriv(('tgrid', c['basis'], c['nc'], c['xmin'], c['xmax'], c['jump']['on']))
+    # coverage guard of the case space itself: x-ranges that are / are not a whole number of pixels were both enumerated
+    if ngrid[0] + ngrid[1] and not (ngrid[0] and ngrid[1]):
+        raise core.MachineryError('default-grid family without whole / fractional x-ranges: %r' % (ngrid,))
+    ctx.cov['parts']['tgrid_fractional_ranges'] = ngrid[1]
+    ctx.cov['parts']['tgrid_whole_ranges'] = ngrid[0]
     for (basis, m), items in sorted(groups.items()):
         check_basis_group(ctx, basis, m, sorted(items))
     if nstate == 0:
@@ -1553,6 +1684,8 @@ def replay(ctx, case):
         check_tset(ctx, untuple(case['call']), untuple(case['expected']), only=case.get('conv'), layouts=case.get('layouts'))
     elif part == 'hist':
         check_hist(ctx, untuple(case['call']), untuple(case['expected']), layouts=case.get('layouts'))
+    elif part == 'tgrid':
+        check_tgrid(ctx, untuple(case['call']), untuple(case['expected']), only=case.get('conv'), layouts=case.get('layouts'))
     elif part == 'record':
         # re-make the record from the real code (same generator, same seed, same index) and let the spec judge it again
         o = case['record']['origin']
